@@ -57,6 +57,9 @@ vars == <<cpc, curExc, prop, asyncPend, nterm, nkill, os, tres, frames, partial,
 fvars == <<fi, fsig, pq, fres, fpc>>
 
 IsException(x) == x \in {"E", "WTE", "UNREB"}       \* subclasses of Exception; "BE" is not
+\* remote: the OUTER handler of _run_backend is `except BaseException` in the current code (a SystemExit raised while the backend
+\* starts up must still be reported to the server, which waits for the runtime info); it was `except Exception` before
+OuterCatches(x) == IsException(x) \/ Fixed
 OwnExc == CASE Ending = "exc" -> "E" [] Ending = "bexc" -> "BE" [] Ending = "unreb" -> "UNREB" [] OTHER -> "none"
 
 HasF == Kind = "remote" /\ Persistent          \* the parent-side forwarding thread F is modelled step by step
@@ -99,7 +102,7 @@ Route(x) ==
             IF cpc \in RemInner /\ IsException(x) THEN cpc' = "ih_log" /\ curExc' = x /\ prop' = FALSE /\ UNCHANGED os
             ELSE IF cpc \in RemInner \cup {"ih_log", "ih_store"} THEN cpc' = "if_rel" /\ curExc' = x /\ prop' = TRUE /\ UNCHANGED os
             ELSE IF cpc \in {"if_rel", "if_join"} THEN
-                 (IF IsException(x) THEN cpc' = "oh_store" /\ prop' = FALSE ELSE cpc' = "of_cleanup" /\ prop' = TRUE) /\ curExc' = x /\ UNCHANGED os
+                 (IF OuterCatches(x) THEN cpc' = "oh_store" /\ prop' = FALSE ELSE cpc' = "of_cleanup" /\ prop' = TRUE) /\ curExc' = x /\ UNCHANGED os
             ELSE IF cpc \in {"oh_store", "oh_resend"} THEN cpc' = "of_cleanup" /\ curExc' = x /\ prop' = TRUE /\ UNCHANGED os
             ELSE Die /\ curExc' = x /\ prop' = TRUE
 
@@ -198,7 +201,7 @@ ChildStep ==
        [] cpc = "ih_store" -> Goto("if_rel") /\ bres' = curExc /\ UNCHANGED <<tres, frames, usc, usframe, done, outq, started>>
        [] cpc = "if_rel" -> Goto("if_join") /\ UNCHANGED <<tres, frames, bres, usc, usframe, done, outq, started>>
        [] cpc = "if_join" ->            \* join the local control thread, then leave the inner try statement
-             /\ IF prop THEN (IF IsException(curExc) THEN cpc' = "oh_store" /\ prop' = FALSE ELSE cpc' = "of_cleanup" /\ prop' = TRUE)
+             /\ IF prop THEN (IF OuterCatches(curExc) THEN cpc' = "oh_store" /\ prop' = FALSE ELSE cpc' = "of_cleanup" /\ prop' = TRUE)
                              /\ UNCHANGED <<curExc, os, findone, finished>>
                 ELSE Goto("of_cleanup")
              /\ UNCHANGED <<tres, frames, bres, usc, usframe, done, outq, started>>
